@@ -70,6 +70,21 @@ def value(depth=0, max_depth=6):
             st.text(st.sampled_from("abc'\"é"), max_size=4).map(lambda v: ["array", "u", list(v)]),
         ),
     )
+    # two mappings whose keys are equal but print differently ((1, 2) / (1.0, 2.0) / (True, 2)): each must show its own keys
+    def twin_key(k, mode):
+        if k[0] == "int" and mode == 0:
+            return ["float", float(k[1])]
+        if k[0] == "int" and k[1] in (0, 1) and mode == 1:
+            return ["bool", bool(k[1])]
+        if k[0] in ("tuple", "frozenset"):
+            return [k[0], [twin_key(x, mode) for x in k[1]]]
+        return k
+
+    small_int = st.integers(0, 3).map(lambda n: ["int", n])
+    ckey = st.one_of(small_int, st.lists(small_int, min_size=1, max_size=3).map(lambda ks: ["tuple", ks]), st.lists(small_int, min_size=1, max_size=2).map(lambda ks: ["frozenset", ks]))
+    twins = st.builds(lambda pairs, mode, kind: [kind, [["dict", [[k, v] for k, v in pairs]], ["dict", [[twin_key(k, mode), v] for k, v in pairs]]]],
+                      st.lists(st.tuples(ckey, leaf()), min_size=1, max_size=3, unique_by=lambda kv: repr(kv[0])), st.integers(0, 1), st.sampled_from(["list", "tuple"]))
+    containers = st.one_of(containers, containers, containers, containers, containers, containers, twins)
     if depth == 0:
         return st.one_of(containers, containers, containers, leaf())
     return st.one_of(leaf(), leaf(), containers)
@@ -405,9 +420,9 @@ class Rerender(Part):
 
         root = st.one_of(st.lists(val(1), max_size=4).map(lambda k: ["list", k]), st.lists(st.tuples(lf, val(1)).map(list), max_size=3).map(lambda p: ["dict", p]))
         edit = st.tuples(st.sampled_from(["root", "nested"]), val(1)).map(list)
-        return st.builds(lambda v, w1, w2, edits, measure, kw, ab: {"v": v, "w1": w1, "w2": w2, "edits": edits, "measure": measure, "kw": kw, "abort": ab}, root, st.integers(40, 120), st.integers(40, 120),
+        return st.builds(lambda v, w1, w2, edits, measure, kw, ab, nr: {"v": v, "w1": w1, "w2": w2, "edits": edits, "measure": measure, "kw": kw, "abort": ab, "node_renders": nr}, root, st.integers(40, 120), st.integers(40, 120),
                          st.lists(edit, min_size=1, max_size=3), st.booleans(), st.sampled_from([{}, {}, {"expand_all": True}, {"indent_size": 2}, {"max_length": None, "margin": 3}]),
-                         st.sampled_from([False, False, False, True]))
+                         st.sampled_from([False, False, False, True]), st.one_of(st.just([]), st.lists(st.tuples(st.integers(8, 60), st.integers(1, 8)).map(list), min_size=2, max_size=4)))
 
     def check(self, spec, ctx):
         import io
@@ -445,6 +460,19 @@ class Rerender(Part):
             else:
                 v.pop()
         pretty = sut(Pretty, v, **spec["kw"])
+        # one traversal rendered several times (pretty_repr accepts the Node that traverse() returns; tracebacks keep such nodes): every rendering equals a fresh one
+        if spec.get("node_renders"):
+            from rich.pretty import pretty_repr, traverse
+
+            node = sut(traverse, v)
+            for w, ind in spec["node_renders"]:
+                a = sut(pretty_repr, node, max_width=w, indent_size=ind)
+                b = sut(pretty_repr, v, max_width=w, indent_size=ind)
+                if a != b:
+                    ctx.violation("eval", "C16/rerender/node", "pretty_repr of one traversed Node at width %d, indent %d (after %r) differs from a fresh pretty_repr of the value %r:\n%s\n--- fresh ---\n%s" % (
+                        w, ind, spec["node_renders"], v, a, b))
+                    return
+            ctx.cls("node-rendered-%d-times" % len(spec["node_renders"]))
 
         def show(w, when):
             con = Console(file=io.StringIO(), width=w, color_system=None, force_terminal=False, _environ={})
